@@ -8,7 +8,7 @@
 
 use crate::core::*;
 use crate::rng::{mix, Rng};
-use crate::worlds::sat::{clause_of, gen_clause, is_taut, K_CLAUSE};
+use crate::worlds::sat::{clause_of, clauses_of_plan, gen_cnf_ops, is_taut, K_CLAUSE, K_CLAUSE_EXT, MAXV};
 use rsdd::repr::{Cnf, Literal, PartialModel, VarLabel, VarSet, WmcParams};
 use rsdd::util::semirings::{FiniteField, RealSemiring};
 use std::collections::{BTreeMap, BTreeSet, HashMap};
@@ -69,15 +69,12 @@ impl World for CnfWorld {
         let mut c = Rng::stream(run_seed, "config");
         let mut o = Rng::stream(run_seed, "ops");
         let mut s = Rng::stream(run_seed, "schedule");
-        let nv = 1 + c.below(6);
+        let wide = c.below(4) == 0;
+        let nv = if wide { 5 + c.below(6) } else { 1 + c.below(6) };
         cfg.insert("nv".into(), nv as i64);
         cfg.insert("wseed".into(), (c.next() >> 2) as i64);
-        let mut ops = Vec::new();
         // the empty formula must be reachable often enough
-        let ncl = if c.below(12) == 0 { 0 } else { c.below(9) };
-        for _ in 0..ncl {
-            ops.push(Op { c: 0, k: K_CLAUSE, a: gen_clause(&mut o, nv) });
-        }
+        let mut ops = if c.below(12) == 0 { Vec::new() } else { gen_cnf_ops(&mut c, &mut o, nv, if wide { 14 } else { 8 }) };
         let ncallers = 1 + c.below(3);
         let len = 4 + o.below(if thorough { 120 } else { 50 });
         let w = [14u32, 30, 14, 16, 6, 8, 4, 6, 3, 3, 3, 4];
@@ -86,7 +83,7 @@ impl World for CnfWorld {
             ops.push(Op {
                 c: s.below(ncallers) as u8,
                 k,
-                a: [o.below(8) as i64, o.below(2) as i64, o.below(64) as i64, o.below(64) as i64],
+                a: [o.below(12) as i64, o.below(2) as i64, o.below(1024) as i64, o.below(1024) as i64],
             });
         }
         Plan {
@@ -101,7 +98,7 @@ impl World for CnfWorld {
 
     fn execute(&self, plan: &Plan, ctx: &mut Ctx) -> R {
         ctx.cur_prop = "C15";
-        let clauses_in: Vec<Vec<(usize, bool)>> = plan.ops.iter().filter(|o| o.k == K_CLAUSE).map(clause_of).collect();
+        let clauses_in: Vec<Vec<(usize, bool)>> = clauses_of_plan(&plan.ops, MAXV);
         let lits: Vec<Vec<Literal>> = clauses_in.iter().map(|c| c.iter().map(|(v, p)| lit(*v, *p)).collect()).collect();
         let cnf = Cnf::new(&lits);
         let nv = cnf.num_vars();
@@ -206,7 +203,7 @@ impl World for CnfWorld {
 
         for (i, op) in plan.ops.iter().enumerate() {
             ctx.step = i;
-            if op.k == K_CLAUSE {
+            if op.k == K_CLAUSE || op.k == K_CLAUSE_EXT {
                 continue;
             }
             ctx.ops += 1;
@@ -417,8 +414,8 @@ impl World for CnfWorld {
 
     fn render_op(&self, op: &Op) -> String {
         let names = ["clause", "push", "decide", "pop", "hash", "hash+extra", "model.set", "model.unset", "varset.insert", "varset.remove", "varset.union_with", "cnf.condition", "audit model/varsets"];
-        if op.k == K_CLAUSE {
-            format!("clause {:?}", clause_of(op))
+        if op.k == K_CLAUSE || op.k == K_CLAUSE_EXT {
+            format!("{} {:?}", if op.k == K_CLAUSE { "clause" } else { "  ...more literals" }, clause_of(op))
         } else {
             format!("c{}: {} {:?}", op.c, names.get(op.k as usize).unwrap_or(&"?"), op.a)
         }
